@@ -96,3 +96,19 @@ extern "C" void h_value_int(void) {
     __CPROVER_assert(as_data, "canary: integer literal branch reachable");
     __CPROVER_assert(!(as_data && v.data.n == 4), "canary: 4-byte string reachable");
 }
+
+// ---- push prefix and total length for data of ANY length up to 70,000 bytes (payload by length only): the 75/76, 255/256
+// and 65535/65536 prefix boundaries
+extern "C" void h_enc_prefix(void) {
+    Value v; __CPROVER_havoc_object(&v); v.type = Value::T_DATA; __CPROVER_assume(v.data.n > 8 && v.data.n <= 70000);
+    CScript s; s.n = 0;
+    const size_t L = v.data.n;
+    verif_expect_throw = 0;
+    v >> s;
+    if (L <= 75) __CPROVER_assert(s.n == 1 + L && s.s.a[0] == L, "spec: 9..75 bytes: direct push (length byte)");
+    else if (L <= 255) __CPROVER_assert(s.n == 2 + L && s.s.a[0] == 0x4c && s.s.a[1] == L, "spec: 76..255 bytes: OP_PUSHDATA1 with a one-byte length");
+    else if (L <= 65535) __CPROVER_assert(s.n == 3 + L && s.s.a[0] == 0x4d && s.s.a[1] == (L & 0xff) && s.s.a[2] == (L >> 8), "spec: 256..65535 bytes: OP_PUSHDATA2 with a little-endian two-byte length");
+    else __CPROVER_assert(s.n == 5 + L && s.s.a[0] == 0x4e && s.s.a[1] == (L & 0xff) && s.s.a[2] == ((L >> 8) & 0xff) && s.s.a[3] == ((L >> 16) & 0xff) && s.s.a[4] == 0, "spec: longer data: OP_PUSHDATA4 with a little-endian four-byte length");
+    __CPROVER_assert(L != 255, "canary: 255-byte data reachable");
+    __CPROVER_assert(L != 65536, "canary: 65536-byte data reachable");
+}
